@@ -1,6 +1,6 @@
 SPECIFICATION Spec
 CONSTANTS
-  Universe <- MC_UniverseSmall
+  Universe <- MC_UniverseNotation
   MaxHist = 2
   Bug = "none"
 INVARIANT SameAsDeclarative
